@@ -49,7 +49,7 @@ CHECKS["C04"] = dict(
          "away from the ambiguous instant). Non-trivial = at the end >=2 live associations share a client IP or a key and at least one reply was relayed. "
          "Distinct = canonical case JSON.",
     assumptions=["source-address comparison across an expiry is not asserted (a new association may legitimately reuse a port)"],
-    units=[unit("props", ["NAT", "NATExpiry"], "C04")],
+    units=[unit("props", ["NAT", "NATExpiry", "Policy"], "C04")],
 )
 CHECKS["C16"] = dict(
     level="exploration",
